@@ -2,17 +2,17 @@ package refterm
 
 // Caps is what this terminal advertises in its replies (DESIGN.md §2.2 c).
 type Caps struct {
-	RGB               bool   // answers XTGETTCAP RGB
-	Smulx             bool   // answers XTGETTCAP Smulx
-	VTE               bool   // tertiary DA reply "~VTE"
-	Sync2026          bool   // DECRQM 2026 -> supported
-	Unicode2027       bool   // DECRQM 2027 -> supported
-	Color2031         bool   // DECRQM 2031 -> supported, DSR 996 answered
-	InBand2048        bool   // answers ?2048h with CSI 48 ; ... t
-	KittyKbd          bool   // answers CSI ? u
-	KittyGfx          bool   // answers APC G queries
-	SixelDA1          bool   // 4 in DA1
-	XTSM              bool   // XTSMGRAPHICS answered with status 0
+	RGB               bool // answers XTGETTCAP RGB
+	Smulx             bool // answers XTGETTCAP Smulx
+	VTE               bool // tertiary DA reply "~VTE"
+	Sync2026          bool // DECRQM 2026 -> supported
+	Unicode2027       bool // DECRQM 2027 -> supported
+	Color2031         bool // DECRQM 2031 -> supported, DSR 996 answered
+	InBand2048        bool // answers ?2048h with CSI 48 ; ... t
+	KittyKbd          bool // answers CSI ? u
+	KittyGfx          bool // answers APC G queries
+	SixelDA1          bool // 4 in DA1
+	XTSM              bool // XTSMGRAPHICS answered with status 0
 	OSC4              bool
 	OSC10             bool
 	OSC11             bool
